@@ -25,7 +25,9 @@ DRIVER = "files_driver.py"
 SHARD = 120
 MB = 1 << 20
 RULE = ("one case = one end-to-end trip (input + output file handler, record -> save on one of the three cassettes -> "
-        "fetch -> replay at different paths, the replayed path possibly holding a file already; contents include files "
+        "fetch -> replay at different paths, the replayed path possibly holding a file already, the case running in a "
+        "scratch current directory with recorded / replayed / holder.to_file paths given as absolute paths, bare file "
+        "names, './name', 'sub/name', 'sub/../name', or naming an absent directory; contents include files "
         "that are themselves complete encodings: zlib / gzip / raw deflate / bz2 / xz / zip blobs, base64 / base32 / "
         "hex / quoted-printable texts, json envelopes, pickles, byte-order marks), one sequence (several "
         "recordings replayed one after another / twice into the same path; recordings made one after another of ONE "
@@ -42,8 +44,10 @@ ASSUMPTIONS = ["file sizes below 2^53 bytes and a finite limit, so that Python's
                "what is restored); it may change freely BETWEEN two interceptions, whatever its size and timestamps",
                "jsonpickle's coding of bytes inside the stored JSON is invertible (oracle qp/qp_dec of model A; exercised "
                "end to end on every run through the three real cassettes)",
-               "the replayed path can be opened for writing"]
-TRUSTED = ["journalling wrapper around builtins.open / io.open (reads through other OS interfaces are not seen)",
+               "the replayed path can be opened for writing (its directory exists - in whichever form the path is "
+               "written: absolute, relative to the current directory, a bare file name)"]
+TRUSTED = ["journalling wrapper around builtins.open / io.open (reads through other OS interfaces are not seen; files are "
+           "identified by os.path.abspath of the name given to open)",
            "fake bucket behind the real S3BasicFacade; scratch files under /tmp/files-scratch-<pid>"]
 THEOREMS = ["C20_file_roundtrip", "C20_limit_honoured", "C20_b64_roundtrip", "C20_b64_alphabet", "C20_history_input",
             "C20_history_output"]
@@ -493,6 +497,39 @@ def generate(rng, tier):
             for cas in cassettes:
                 cases.append(trip_case(rng, next(dims), spec, LIM_DEFAULT, out_content=enc[(i + 3) % len(enc)][1],
                                        tag="encoded:" + tag, cassette=cas))
+    # 13. the FORM of the paths (all of the above are absolute paths in an existing directory): the case runs with its
+    #     scratch directory as the current directory and hands the handlers / holder.to_file a bare file name, './name',
+    #     'sub/name' (directory present), 'sub/../name', an absolute path in a sub-directory - the recorded paths, the
+    #     replayed paths and the path the holder is written to vary independently.  (a) the small region replayed form x
+    #     positional / keyword x cassette deterministically, (b) 'nosuch/name' (directory absent: cannot be opened for
+    #     writing; correspondence only, as in 9.), (c) sequences replayed into a relative path, (d) a share of the trips
+    #     above.  Drawn last: the cases above stay what they were.
+    forms = ["bare", "dot", "sub", "abs-sub", "dotdot", "abs"]
+    k = 0
+    for cas in cassettes:
+        for form in forms:
+            for mode in ("pos", "kw"):
+                d = list(next(dims))
+                d[0], d[4], d[6] = cas, mode, mode
+                k += 1
+                tag, spec = cat[k % len(cat)] if size_of(cat[k % len(cat)][1]) <= 300 else cat[1]
+                c = trip_case(rng, tuple(d), spec, LIM_DEFAULT, out_content=rng.choice(small), tag="path-form:" + tag)
+                c["path_form"] = {"play": form, "rec": forms[(k + 2) % len(forms)], "holder": forms[(k // 2) % len(forms)]}
+                cases.append(c)
+    for cas in cassettes:
+        c = trip_case(rng, next(dims), rng.choice(small), LIM_DEFAULT, tag="unwritable", cassette=cas)
+        c["unwritable"], c["pre"], c["pre_kind"], c["expect"] = True, None, "none", "unwritable"
+        c["path_form"] = {"play": "sub-missing", "rec": rng.choice(forms), "holder": rng.choice(forms)}
+        cases.append(c)
+    for form in forms[:5] if quick else forms[:5] * 3:
+        mix = [rng.choice(small) for _ in range(3)]
+        c = seq_case(mix, [0, 1, 2, 1], LIM_DEFAULT, rng.choice([None, rnd(rng.randrange(0, 400))]), "path-form")
+        c["path_form"] = {"play": form, "rec": rng.choice(forms)}
+        cases.append(c)
+    for c in cases:
+        if c["kind"] == "trip" and "path_form" not in c and not c.get("expect") and size_of(c["content"]) <= MB \
+                and rng.random() < 0.2:
+            c["path_form"] = {"play": rng.choice(forms), "rec": rng.choice(forms), "holder": rng.choice(forms)}
     # heavy trips first, then dealt round-robin so that every Coq shard gets its share of the long byte strings
     heavy = lambda c: sum(size_of(x) for x in c["contents"]) if c["kind"] == "seq" else \
         sum(size_of(st["content"]) for st in c["steps"]) if c["kind"] == "hist" else size_of(c["content"])
@@ -864,7 +901,9 @@ def direct(case, obs):
         if "RI" in written and (stale is None or not same_bytes(written["RI"], expand(stale))):
             fails.append(("input-restored-at-recorded-path", "replay wrote the file at the recorded path"))
         if "PI" not in written:
-            fails.append(("input-not-restored", "no file at the path of the replayed call"))
+            fails.append(("input-not-restored", "no file at the path of the replayed call (path given as: %s%s)" % (
+                (case.get("path_form") or {}).get("play", "abs"),
+                "; the replayed input call raised %s" % obs["play_exc"] if obs.get("play_exc") else "")))
         elif not same_bytes(written["PI"], expand(cin)):
             had = (case.get("pre") or {}).get("PI")
             fails.append(("input-bytes-differ" if had is None else "input-bytes-differ-on-existing-file",
@@ -885,7 +924,8 @@ def direct(case, obs):
                 fails.append(("output-bytes-differ:" + which, "%s content differs from the %d bytes written (got %s)" %
                               (which, size_of(content), str(h)[:120])))
             if which == "holder_rec" and not same_bytes(obs.get("holder_file"), expand(content)):
-                fails.append(("output-holder-file-differs", "holder.to_file wrote different bytes"))
+                fails.append(("output-holder-file-differs", "holder.to_file(path given as: %s) wrote different bytes: %s" %
+                              ((case.get("path_form") or {}).get("holder", "abs"), str(obs.get("holder_file"))[:80])))
     return fails
 
 
@@ -917,11 +957,15 @@ def features(case):
         f.add("replay-path-before:" + case.get("pre_kind", "none"))
         if case.get("unwritable"):
             f.add("replay-path-unwritable")
+        for side, form in sorted((case.get("path_form") or {"play": "abs", "rec": "abs", "holder": "abs"}).items()):
+            f.add("path-form:%s=%s" % (side, form))
     elif k == "seq":
         f.add("cassette:" + case["cassette"])
         f.add("seq:" + case["tag"])
         f.add("seq-steps:%d" % len(case["order"]))
         f.add("seq-before:" + ("file" if case.get("pre") is not None else "nothing"))
+        for side, form in sorted((case.get("path_form") or {"play": "abs", "rec": "abs"}).items()):
+            f.add("path-form:%s=%s" % (side, form))
         sizes = [size_of(case["contents"][i]) for i in case["order"]]
         if any(a > b for a, b in zip(sizes, sizes[1:])):
             f.add("seq:shrinking-step")
@@ -1029,7 +1073,7 @@ def search_harder(rng, bad_cases):
 
 MANIFEST = dict(
     design_ref='6/C20',
-    text='Coq theorems for every byte string, path, way of passing the path (keyword / position), file-system and quoted-printable oracle: record -> cassette -> replay writes exactly the recorded bytes at the path of the REPLAYED call (input handler) / yields a holder with exactly those bytes (output handler), also when the content is the placeholder text; above the limit the placeholder is recorded and the file is never opened; the size test is the exact rational comparison size > limit*2^20 with the three boundary corollaries and int(float(env)) for the environment variable; a concrete RFC 4648 base64 codec with b64dec(b64enc b) = b, alphabet and length laws. Model tied to /repo on every run: the real handlers are driven end to end through the real TapeRecorder and the three real cassettes (in-memory, file, S3 over a fake bucket) on contents {empty, all 256 byte values, newlines, placeholder and near-placeholder texts, random binary, multi-MB, and 48 contents that are themselves valid encodings (deflated / archived blobs at several levels and framings incl. truncated, bad-checksum and concatenated streams, base64 family and other transfer encodings, json / jsonpickle-looking / serialized-envelope texts, pickles, byte-order marks) - the bytes come back as recorded whatever they spell} x sizes limit-1/limit/limit+1 x explicit float / int / environment limits x keyword / position x static / instance, and at unit level (base64 text, size check, path lookup); Coq compares with the model by vm_compute; the direct predicate (restored bytes == original at the replayed path, holder content == original, above-limit files never opened and recorded as the placeholder) searches for a failing input. Histories on one path (theorems C20_history_input/_output: the k-th recording of a path is made of what the file holds at the k-th interception): the same recorded path intercepted repeatedly - across recordings and 2-5 times inside one operation, by input and output handlers in every order - with the file rewritten in between (same length, modification time stamped / kept / clock, in place / replaced).',
+    text='Coq theorems for every byte string, path, way of passing the path (keyword / position), file-system and quoted-printable oracle: record -> cassette -> replay writes exactly the recorded bytes at the path of the REPLAYED call (input handler) / yields a holder with exactly those bytes (output handler), also when the content is the placeholder text; above the limit the placeholder is recorded and the file is never opened; the size test is the exact rational comparison size > limit*2^20 with the three boundary corollaries and int(float(env)) for the environment variable; a concrete RFC 4648 base64 codec with b64dec(b64enc b) = b, alphabet and length laws. Model tied to /repo on every run: the real handlers are driven end to end through the real TapeRecorder and the three real cassettes (in-memory, file, S3 over a fake bucket) on contents {empty, all 256 byte values, newlines, placeholder and near-placeholder texts, random binary, multi-MB, and 48 contents that are themselves valid encodings (deflated / archived blobs at several levels and framings incl. truncated, bad-checksum and concatenated streams, base64 family and other transfer encodings, json / jsonpickle-looking / serialized-envelope texts, pickles, byte-order marks) - the bytes come back as recorded whatever they spell} x sizes limit-1/limit/limit+1 x explicit float / int / environment limits x keyword / position x static / instance, and at unit level (base64 text, size check, path lookup); Coq compares with the model by vm_compute; the direct predicate (restored bytes == original at the replayed path, holder content == original, above-limit files never opened and recorded as the placeholder) searches for a failing input. Histories on one path (theorems C20_history_input/_output: the k-th recording of a path is made of what the file holds at the k-th interception): the same recorded path intercepted repeatedly - across recordings and 2-5 times inside one operation, by input and output handlers in every order - with the file rewritten in between (same length, modification time stamped / kept / clock, in place / replaced). Path forms: trips and sequences also run with the scratch directory as current directory and the recorded / replayed / holder.to_file paths written as a bare file name, ./name, sub/name, sub/../name, an absolute path in a sub-directory (replayed form x positional / keyword x cassette deterministically in the quick tier) and nosuch/name (absent directory: correspondence only) - a path is an opaque name for the model, the bytes land at the file the replayed call names however it is written.',
     note='Trusted: Coq kernel + vm_compute; hand-written model; correspondence harness (fake bucket behind the real S3BasicFacade, journalling wrapper around open, substituted os.path.getsize for sizes that cannot be materialised); jsonpickle\'s coding of bytes is an oracle (model A) exercised end to end; float comparison exact for sizes < 2^53.',
     technique='Coq proof (lia + finite sweep over the 64 base64 digits, exact rationals for the limit) + model/implementation correspondence by vm_compute + direct predicate end to end',
 )
